@@ -128,6 +128,7 @@ static unsigned long file_sig (const char *path, long *mtime_ns) {
 }
 
 /* ------------------------------------------------------------------ reference staleness predicate */
+static int keep_inherited;      /* this load keeps the inherited programs that are in memory */
 static const char *stale_reason (int b) {
   /* why binary b must not be used (0 = it may be used) */
   static char why[120];
@@ -138,7 +139,7 @@ static const char *stale_reason (int b) {
   int deps_main[] = { F_MAIN, F_AH, F_BH, -1 }, deps_base[] = { F_BASE, F_CH, -1 }, deps_base2[] = { F_BASE2, -1 };
   int *own = b == B_MAIN ? deps_main : b == B_BASE ? deps_base : deps_base2;
   for (int i = 0; own[i] >= 0; i++) if (mt[own[i]] > t) { snprintf (why, sizeof why, "%s-newer", own[i] == F_MAIN || own[i] == F_BASE || own[i] == F_BASE2 ? "source" : "include"); return why; }
-  if (b == B_MAIN) {
+  if (b == B_MAIN && !keep_inherited) {
     for (int i = 0; deps_base[i] >= 0; i++) if (mt[deps_base[i]] > t) { snprintf (why, sizeof why, "inherited-%s-newer", deps_base[i] == F_BASE ? "source" : "include"); return why; }
     if (bin_exists[B_BASE] && bin_mt[B_BASE] > t) return "inherited-binary-newer";
     if (FEAT (5)) {
@@ -151,7 +152,11 @@ static const char *stale_reason (int b) {
 
 /* ------------------------------------------------------------------ loading and observing */
 static void destruct_all (void) {
-  for (object_t *o = obj_list, *nx; o; o = nx) { nx = o->next_all; if (!strncmp (o->name, "c17/", 4) && !(o->flags & O_DESTRUCTED)) destruct_object (o); }
+  for (object_t *o = obj_list, *nx; o; o = nx) {
+    nx = o->next_all;
+    if (keep_inherited && strcmp (o->name, "c17/main")) continue;
+    if (!strncmp (o->name, "c17/", 4) && !(o->flags & O_DESTRUCTED)) destruct_object (o);
+  }
   remove_destructed_objects ();
 }
 static void set_policy (const char *k, int v) { push_constant_string (k); push_number (v); safe_apply_master_ob ("set_policy", 2); }
@@ -244,7 +249,9 @@ static object_t *do_load (int save, const char *why) {
        Once something has been saved, keep these strings alive, allocated in the opposite order: whatever is loaded
        or compiled later sees them at addresses whose order differs from the order at the time of the save. */
     static int perturbed;
-    static const char *names[] = { "typed", "run", "north", "gamma", "fail2", "fail", "beta", "alpha", "b_name", 0 };
+    /* source order is b_name typed run fail fail2 / alpha beta gamma north: rotated, so that the new order is not an
+       involution of the old one (a table permuted with the inverse permutation would otherwise look right) */
+    static const char *names[] = { "run", "fail", "fail2", "b_name", "typed", "gamma", "north", "alpha", "beta", 0 };
     if (!perturbed && (bin_exists[B_MAIN] || bin_exists[B_BASE])) {
       perturbed = 1;
       destruct_all ();          /* the programs release their strings */
@@ -292,7 +299,7 @@ static void compare_with_fresh (object_t *ob, const char *why) {
 
 /* ------------------------------------------------------------------ operations */
 typedef struct { int kind, a, b; char name[40]; } op_t;
-enum { O_LOADSAVE, O_LOAD, O_EDIT, O_TOUCH, O_SETREL, O_BINREL, O_DELBIN, O_SEFUN, O_DRIVERID };
+enum { O_RELOADMAIN = 20, O_LOADSAVE = 0, O_LOAD, O_EDIT, O_TOUCH, O_SETREL, O_BINREL, O_DELBIN, O_SEFUN, O_DRIVERID };
 static op_t ops[64]; static int nops;
 static void add_op (int kind, int a, int b, const char *fmt, ...) { va_list ap; op_t *o = &ops[nops++]; o->kind = kind; o->a = a; o->b = b; va_start (ap, fmt); vsnprintf (o->name, sizeof o->name, fmt, ap); va_end (ap); }
 static const char *shortn (int f) { static const char *n[] = { "main.c", "a.h", "b.h", "base.c", "c.h", "base2.c", "simul_efun.c" }; return n[f]; }
@@ -301,6 +308,7 @@ static void build_ops (void) {
   static const char *rel[] = { "earlier", "equal", "later" };
   add_op (O_LOADSAVE, 0, 0, "load+save");
   add_op (O_LOAD, 0, 0, "load");
+  add_op (O_RELOADMAIN, 0, 0, "reload(main only)");
   int files[] = { F_MAIN, F_AH, F_BH, F_BASE, F_CH };
   for (int i = 0; i < 5; i++) add_op (O_EDIT, files[i], 0, "edit(%s)", shortn (files[i]));
   add_op (O_DELBIN, B_MAIN, 0, "delete(main.b)");
@@ -326,9 +334,12 @@ static void apply_op (op_t *o, int step) {
   char why[80]; snprintf (why, sizeof why, "step %d %s", step, o->name);
   advance_clock ();
   switch (o->kind) {
-  case O_LOADSAVE: case O_LOAD: {
+  case O_LOADSAVE: case O_LOAD: case O_RELOADMAIN: {
+    /* reload(main only): the inherited programs stay as they are in memory (if any are loaded) */
+    keep_inherited = (o->kind == O_RELOADMAIN && find_object_by_name ("c17/base") != 0);
     object_t *ob = do_load (o->kind == O_LOADSAVE, why);
     if (ob) compare_with_fresh (ob, why);
+    keep_inherited = 0;
     break;
   }
   case O_EDIT: ver[o->a]++; mt[o->a] = now_t; write_src (o->a); break;
